@@ -1,0 +1,35 @@
+package meta
+
+import (
+	"sync"
+
+	"github.com/coregx/coregex/nfa"
+)
+
+// pikevmPool hands out PikeVM instances for the fallback paths of a searcher. A
+// searcher is shared by all goroutines that use the Regex, while a PikeVM keeps its
+// queues, sparse sets and slot tables in the instance and is not thread-safe: one
+// instance per searcher made concurrent fallbacks race and mix up their results.
+type pikevmPool struct {
+	pool sync.Pool
+}
+
+func newPikeVMPool(n *nfa.NFA) *pikevmPool {
+	p := &pikevmPool{}
+	p.pool.New = func() any { return nfa.NewPikeVM(n) }
+	return p
+}
+
+// Search runs PikeVM.Search on a pooled instance.
+func (p *pikevmPool) Search(haystack []byte) (int, int, bool) {
+	vm := p.pool.Get().(*nfa.PikeVM)
+	defer p.pool.Put(vm)
+	return vm.Search(haystack)
+}
+
+// SearchAt runs PikeVM.SearchAt on a pooled instance.
+func (p *pikevmPool) SearchAt(haystack []byte, at int) (int, int, bool) {
+	vm := p.pool.Get().(*nfa.PikeVM)
+	defer p.pool.Put(vm)
+	return vm.SearchAt(haystack, at)
+}
